@@ -14,7 +14,7 @@ CFG = dict(
     level_text="Coq theorems (unbounded: all operation sequences of the modelled grammar, all states, all growth policies, under the decidable side condition wf_ops; refutation witnesses for its negation) about executable models of yaegi's frame slots (Y) and of Go's value/reference semantics (G); Y is tied to the source on every run by a behavioural correspondence evaluated inside Coq on generated histories (also inside the defect regions), G is validated against the compiled program on the same histories; every history is also compared yaegi-vs-compiled directly.",
     level_note="Trusted: Coq kernel + vm_compute, no axioms; harness; Go toolchain as the reference. The mechanisms are modelled by hand and tied by correspondence (about 300 histories, 5-60 steps, whole pool printed after every step, per quick run).",
     technique="Coq refinement proof by mutual induction over operations and expressions + model/implementation correspondence evaluated in Coq + differential runs against compiled Go",
-    assumptions=["constructs outside the Coq grammar (methods, closures, interface boxing, channels, defer, named results) are covered by the yaegi-vs-compiled comparison only",
+    assumptions=["interface{} elements / fields / map values / variables holding int, string, struct, pointer and slice values are part of the Coq grammar (boxed value trees); constructs outside the Coq grammar (methods, closures, var e interface{} = x declarations, channels, defer, named results, tuple assignment of interface operands) are covered by the yaegi-vs-compiled comparison only",
                  "programs whose result depends on an evaluation order Go leaves unspecified are not generated (call destinations are variables / fields / constant indices; map-entry destinations take pure right-hand sides)"],
 )
 CFG["id"] = "C04"
